@@ -120,6 +120,26 @@ def linregTrain (solve : Solver) (bs : List (List (Vec × Vec))) (d k : Nat) (la
 /-- `(A·B)_{i c}` for an `n × n` matrix `A` -/
 def matMul (n : Nat) (A B : Nat → Nat → Rat) (i c : Nat) : Rat := rsum n fun j => A i j * B j c
 
+/-! ### the problem linear regression is meant to solve (specification side) -/
+
+/-- `(x|1)·β`: prediction of the affine model with parameters `β` (`β_j`, `j < d` weights, `β_d` bias) -/
+def predict (d : Nat) (β : Nat → Rat) (x : Vec) : Rat := rsum (d + 1) fun j => ext1 d x j * β j
+
+/-- regularised squared error of output column `c`:
+`½ Σ_i ((x_i|1)·β − l_{ic})² + ½ λ Σ_{j<d} β_j²` (the bias is not regularised) -/
+def linregObjective (bs : List (List (Vec × Vec))) (d : Nat) (lam : Rat) (c : Nat) (β : Nat → Rat) : Rat :=
+  1 / 2 * bsum bs (fun p => (predict d β p.1 - p.2.at c) * (predict d β p.1 - p.2.at c))
+    + 1 / 2 * lam * rsum d (fun j => β j * β j)
+
+/-- its partial derivative with respect to `β_i` (shown to be the derivative by
+`linreg_objective_expansion`) -/
+def linregGradient (bs : List (List (Vec × Vec))) (d : Nat) (lam : Rat) (c : Nat) (β : Nat → Rat) (i : Nat) : Rat :=
+  bsum bs (fun p => ext1 d p.1 i * (predict d β p.1 - p.2.at c)) + (if i < d then lam * β i else 0)
+
+/-- the total objective over `k` label columns of a parameter matrix `B` (`(d+1) × k`) -/
+def linregObjectiveAll (bs : List (List (Vec × Vec))) (d k : Nat) (lam : Rat) (B : Nat → Nat → Rat) : Rat :=
+  rsum k fun c => linregObjective bs d lam c (fun j => B j c)
+
 /-! ### an executable solver (Gauss–Jordan over `Rat`), used by the driver.
 Nothing is proved about it; the driver checks `A·x = b` on every result. -/
 
